@@ -28,13 +28,15 @@ def linearize(nf, atom, pol, int_vars, positive=()):
         d = nf.sub(nf.of_term(atom[2][0]), nf.of_term(atom[2][1]))
     except NotReal as e:
         raise NotLinear(str(e))
-    num, den = d
-    # denominator must be a positive monomial in the positive atoms
-    if len(den) != 1:
-        raise NotLinear('denominator %r' % (den,))
-    (dm, dc), = den.items()
-    if dc <= 0 or any(a not in positive for a, e in dm):
-        raise NotLinear('denominator sign')
+    num = d.num
+    # every denominator factor must be a positive atom (monomial) on the domain
+    for k, e in d.fac.items():
+        f = dict(k)
+        if len(f) != 1:
+            raise NotLinear('denominator factor %r' % (f,))
+        (dm, dc), = f.items()
+        if dc <= 0 or any(a not in positive for a, _e in dm):
+            raise NotLinear('denominator sign')
     # divide the numerator by its monomial content in positive atoms
     if not num:
         coeffs, const = {}, 0
